@@ -77,6 +77,9 @@ def relayout(src, rng, style):
         return c.replace('*/', '* /')
     if style in ('comments', 'random') and rng.random() < 0.7:
         emit('// ' + rng.choice(COMMENT_TEXTS) + '\n')
+    if style not in ('lines', 'dense') and rng.random() < 0.35:
+        # blank lines / white space before the first token
+        emit(rng.choice(['\n', '\n\n', '  \n\t\n', '\r\n\r\n', ' ', '\n \n   ']))
     for i, (kind, text, s, e) in enumerate(toks):
         smap[s] = cur
         if kind == 'pragma':
@@ -107,7 +110,7 @@ def relayout(src, rng, style):
         emap[e] = cur
         if i == len(toks) - 1:
             if rng.random() < 0.5:
-                emit('\n')
+                emit(rng.choice(['\n', '\n', '\n\n  \n', '\r\n', '  ']))
             break
         if style == 'lines':
             sep = '\n'
